@@ -390,3 +390,71 @@ func Unframe(b []byte) (payload, rest []byte, err error) {
 	}
 	return b[4 : 4+int(n)], b[4+int(n):], nil
 }
+
+// Canon returns w in canonical form: struct fields sorted by id (stable), set
+// elements and map entries sorted by the reference encoding of the
+// (canonicalised) element / key, recursively. Two values are equal as Thrift
+// values with bit-exact doubles iff their canonical forms are wm.Equal
+// (provided sets / map keys are duplicate-free).
+func Canon(w wm.W) wm.W {
+	out := w
+	switch w.K {
+	case wm.KStruct:
+		out.Fields = make([]wm.Field, len(w.Fields))
+		for i, f := range w.Fields {
+			out.Fields[i] = wm.Field{ID: f.ID, V: Canon(f.V)}
+		}
+		sortStable(len(out.Fields), func(i, j int) bool { return out.Fields[i].ID < out.Fields[j].ID }, func(i, j int) {
+			out.Fields[i], out.Fields[j] = out.Fields[j], out.Fields[i]
+		})
+	case wm.KList:
+		out.Elems = make([]wm.W, len(w.Elems))
+		for i, e := range w.Elems {
+			out.Elems[i] = Canon(e)
+		}
+	case wm.KSet:
+		out.Elems = make([]wm.W, len(w.Elems))
+		keys := make([]string, len(w.Elems))
+		for i, e := range w.Elems {
+			out.Elems[i] = Canon(e)
+			keys[i] = string(Encode(out.Elems[i]))
+		}
+		sortStable(len(keys), func(i, j int) bool { return keys[i] < keys[j] }, func(i, j int) {
+			keys[i], keys[j] = keys[j], keys[i]
+			out.Elems[i], out.Elems[j] = out.Elems[j], out.Elems[i]
+		})
+	case wm.KMap:
+		out.Pairs = make([]wm.Pair, len(w.Pairs))
+		keys := make([]string, len(w.Pairs))
+		for i, p := range w.Pairs {
+			out.Pairs[i] = wm.Pair{K: Canon(p.K), V: Canon(p.V)}
+			keys[i] = string(Encode(out.Pairs[i].K)) + "\x00" + string(Encode(out.Pairs[i].V))
+		}
+		sortStable(len(keys), func(i, j int) bool { return keys[i] < keys[j] }, func(i, j int) {
+			keys[i], keys[j] = keys[j], keys[i]
+			out.Pairs[i], out.Pairs[j] = out.Pairs[j], out.Pairs[i]
+		})
+	}
+	if len(out.Elems) == 0 {
+		out.Elems = nil
+	}
+	if len(out.Pairs) == 0 {
+		out.Pairs = nil
+	}
+	if len(out.Fields) == 0 {
+		out.Fields = nil
+	}
+	return out
+}
+
+// sortStable is an insertion sort over an index space (inputs are small).
+func sortStable(n int, less func(i, j int) bool, swap func(i, j int)) {
+	for i := 1; i < n; i++ {
+		for j := i; j > 0 && less(j, j-1); j-- {
+			swap(j, j-1)
+		}
+	}
+}
+
+// CanonEqual compares two values as Thrift values with bit-exact doubles.
+func CanonEqual(a, b wm.W) bool { return wm.Equal(Canon(a), Canon(b)) }
